@@ -64,6 +64,11 @@ impl Ctx {
     }
 
     /// directory the run writes to (scratch files of a property module go here too)
+    /// number of correspondence cases emitted so far
+    pub fn cases(&self) -> u64 {
+        self.n_cases
+    }
+
     pub fn out_dir(&self) -> &str {
         &self.out_dir
     }
